@@ -4,7 +4,7 @@ from harness.coqcases import run_bool_cases
 from harness.flatten import flatten, coq_list, coq_bool
 
 PROPS_FILE = "P_C17"
-COQ_TARGETS = ["CaseLib", "PqmModel"]
+COQ_TARGETS = ["CaseLib", "PqmModel", "PqmQuantum"]
 RULE = ("correspondence: the gate list appended by pqm.initialize (classical and quantum pattern) compared inside Coq with "
         "PqmModel.pqm_gates / pqm_gates_q for n = 1..8/20 and all (n<=4) or random patterns, for a placement function that satisfies "
         "the theorem's hypotheses; direct evaluation (harness/props/c17_eval.py): exact marginals of auxiliary, memory and "
@@ -66,7 +66,8 @@ def correspondence(ctx):
         cases.append(("quantum", n, None))
         ctx.count("corr:quantum", key=("q", n), nontrivial=n >= 2, sample={"n": n, "gates": len(fl)} if n == 3 else None)
         ctx.max_struct_qubits = max(ctx.max_struct_qubits, qc.num_qubits)
-        lines.append(f"(list_eqb pgate_eqb (pqm_gates_q {n} (fun i => i) (fun i => {n} + i) {2 * n}) {gates_to_coq(fl, n)})")
+        lines.append(f"(list_eqb pgate_eqb (pqm_gates_q {n} (fun i => if i <? {n} then i else {2 * n} + 1 + 2 * i) "
+                     f"(fun i => if i <? {n} then {n} + i else {2 * n} + 2 + 2 * i) {2 * n}) {gates_to_coq(fl, n)})")
 
     def on_fail(c):
         ctx.mismatch("C17 correspondence: gate list of pqm.initialize differs from the Coq model PqmModel.pqm_gates",
@@ -106,7 +107,10 @@ def replay(ctx, case):
 
 
 MANIFEST = dict(
-    text='Proof (FULL for the classical-pattern variant): for every n>=1, placement, pattern and memory state the gate list of the model leaves amplitude cos(pi d/2n) a_k on aux=0 and -i sin(pi d/2n) a_k on aux=1 (C17_pqm_amplitudes); hence P(aux=0,k) = |a_k|^2 cos^2 and the memory marginal is unchanged (C17_probabilities). Tie: the gate list appended by pqm.initialize is compared inside Coq with PqmModel.pqm_gates (both variants), n<=8/20. The quantum-pattern variant and exact marginals are evaluated.',
-    note='Modelled, not verified: Qiskit h/x/cx/p/cp matrices (validated per run); quantum-pattern variant evaluated only.',
-    technique='Coq proof (diagonal-layer semantics, induction on n) + gate-list correspondence (vm_compute) + exact marginal evaluation',
-    design_ref='DESIGN.md section 4, C17')
+    text=("Proof (FULL): for every n>=1, every placement, every pattern and every memory state the gate list of the model leaves amplitude cos(pi d/2n) a_k on aux=0 and "
+          "-i sin(pi d/2n) a_k on aux=1 (C17_pqm_amplitudes, classical pattern; C17_pqm_quantum, pattern in a quantum register: on each pattern branch the circuit acts as the classical "
+          "one, branches never mix); hence P(aux=0,k) = |a_k|^2 cos^2 and the memory marginal is unchanged (C17_probabilities). Tie: the gate list appended by pqm.initialize is compared "
+          "inside Coq with PqmModel.pqm_gates / pqm_gates_q on placements that satisfy the theorems' hypotheses, n<=8/20. Exact marginals are also evaluated numerically."),
+    note="Modelled, not verified: Qiskit h/x/cx/p/cp matrices (validated per run).",
+    technique="Coq proof (diagonal-layer semantics, induction on n; branch-wise agreement for the quantum pattern) + gate-list correspondence (vm_compute) + exact marginal evaluation",
+    design_ref="DESIGN.md section 4, C17")
